@@ -680,7 +680,7 @@ def race_pass(seed, n=10000):
                               + "\n".join("# " + x for x in err[-3000:].splitlines()) + "\n")
         rep.violation(path, "the race detector reported a data race in the constructs under the C11 scenarios", found=False)
     try:
-        evp = os.path.join(C.VERIF, "evidence", PROP + ".json")
+        evp = os.path.join(C.evidence_dir(), PROP + ".json")
         ev = json.load(open(evp))
         ev["coverage"]["race_pass"] = {"cases": len(cases), "predicate_failures": len(bad), "race_reports": int(raced),
                                        "wall_s": round(time.time() - t0, 1)}
